@@ -215,6 +215,14 @@ Section Model.
 
   (* ---- read_signal restricted to the numpy readers (util.py) ---- *)
 
+  (* if key: data = archive[key]  else: data = archive["arr_0"] *)
+  Definition archive_key (key : option string) : option string :=
+    match archive_entry (match key with Some _ => true | None => false end)
+                        (match key with Some s => str_truthy s | None => false end) with
+    | Some k0 => Some k0
+    | None => key
+    end.
+
   Definition read_signal (fs : fsys V) (p : string) (d : option dtype) (key : option string)
              (fa : option force_as) : res (arr V) :=
     f <- (match fa with Some f => Ok f | None => infer_force_as (is_table p) (sf_ext p) p end) ;;
@@ -229,12 +237,7 @@ Section Model.
       x <- np_load fs p ;;
       match x with
       | LNpz es =>
-        let k := match archive_entry (match key with Some _ => true | None => false end)
-                                     (match key with Some s => str_truthy s | None => false end) with
-                 | Some k0 => Some k0
-                 | None => key
-                 end in
-        match k with
+        match archive_key key with
         | None => Raise KeyError
         | Some k' => match lookup k' es with Some a => astype d a | None => Raise KeyError end
         end
